@@ -160,7 +160,7 @@ func (h *stringHash) Delete(key string) (oldValue interface{}) {
 		delete(h.index, key)
 		for k, v := range index {
 			if v > p {
-				index[k] = p - 1
+				index[k] = v - 1
 			}
 		}
 		ne := make([]stringEntry, len(h.entries)-1)
